@@ -27,7 +27,8 @@ def main():
     while len(cases) < nship:
         a, b = sp.pair(rng)
         cases.append({"op": "in_unit", "a": {"m": convgen.rand_mag(rng, ("int", "float")), "u": a}, "b": b})
-    r = impl("convsys_worker.py", {"systems": True, "cases": cases})
+    r = impl("convsys_worker.py", {"systems": True, "cases": cases, "coverage": True})
+    if "coverage" in r: c.cov["conversions_py_line_coverage_shipped_run"] = r["coverage"]
     info = run_block(c, "ship", r["export"], cases, r["results"], Fraction(1, 10**11))
     stats = {"ship_right": 0, "ship_cnf": 0, "ship_wrong_known": 0, "ship_certified": 0, "ship_uncertified_right": 0}
     for i, (cs, res) in enumerate(zip(cases, r["results"])):
